@@ -344,6 +344,8 @@ def oracle_c13(prog, r):
             continue
         deps = c["deps"]
         for i, d in enumerate(deps):
+            if d in deps[:i]:
+                continue    # a repeated member: its single start belongs to its first position (once-only is C01's business)
             prev_ok = all(tv.succeeded(x) for x in deps[:i])
             starts = [s for s in tv.bs.get(d, []) if info["enter"] < s < info["end"]]
             # is the start attributable to this call? no other active call names d at that moment
